@@ -54,7 +54,7 @@ EP_URL = "http://sim.test/sparql"
 
 def gen_case(rng, tier):
     channel = rng.choice(["nt", "nt", "tsv", "turtle_iter", "turtle", "turtle", "xml", "json-ld", "rdflib_graph", "rdflib_graph",
-                          "endpoint_on", "endpoint_off", "endpoint_off", "endpoint_deep", "endpoint_deep", "endpoint_mixed", "nt_mixed", "nt_mixed", "shape_map_local"])
+                          "endpoint_on", "endpoint_off", "endpoint_off", "endpoint_deep", "endpoint_deep", "endpoint_mixed", "nt_mixed", "nt_mixed", "shape_map_local", "zip_nt"])
     endpoint = channel.startswith("endpoint")
     kinds = ("node", "str", "int", "iri", "iri2") if (endpoint or channel == "turtle_iter") else ("node", "str", "int", "lang", "date", "iri", "iri2", "cdt")
     n_nodes = rng.choice([3, 4, 6, 8, 10]) if tier == "quick" else rng.choice([3, 4, 6, 8, 10, 16, 24])
@@ -127,7 +127,7 @@ def materialise(case):
     """the exact bytes every child will read (computed in the parent only)"""
     triples = [gen.T(t) for t in case["graph"]]
     ch = case["channel"]
-    if ch in ("nt", "nt_mixed", "shape_map_local", "endpoint_on", "endpoint_off", "endpoint_deep", "endpoint_mixed", "rdflib_graph"):
+    if ch in ("nt", "nt_mixed", "zip_nt", "shape_map_local", "endpoint_on", "endpoint_off", "endpoint_deep", "endpoint_mixed", "rdflib_graph"):
         return gen.to_nt(triples)
     if ch == "tsv":
         return gen.to_tsv(triples)
@@ -167,7 +167,20 @@ def _case_kwargs(case, sim):
     kw["namespaces_dict"] = copy.deepcopy(case["ns"])
     ch = case["channel"]
     doc = case["doc"]
-    if ch in ("nt", "shape_map_local", "nt_mixed"):
+    if ch == "zip_nt":
+        # an archive as `zip -r` or a file manager writes it: folder entries, a __MACOSX member, several graph members
+        import zipfile
+        lines = doc.splitlines(True)
+        k = max(1, len(lines) // 3)
+        p = sim.path("case.zip")
+        with zipfile.ZipFile(p, "w") as z:
+            z.writestr("data/", "")
+            for j in range(0, len(lines), k):
+                z.writestr("data/part%d.nt" % (9 - j // k), "".join(lines[j:j + k]))
+            z.writestr("__MACOSX/", "")
+        kw["graph_file_input"] = p
+        kw["compression_mode"] = "zip"
+    elif ch in ("nt", "shape_map_local", "nt_mixed"):
         kw["raw_graph"] = doc
     elif ch == "tsv":
         kw["raw_graph"] = doc
@@ -217,6 +230,11 @@ def child_main():
                             ties = tied_groups(groups)
                             res["shex"] = {"kind": "ok", "text": text,
                                            "ties": "ALL" if ties == ALL_TIED else sorted([list(g) for g in ties])}
+                            # the same document through the file channel, in this very interpreter
+                            fp = sim.path("child_out.shex")
+                            sh.shex_graph(output_file=fp)
+                            with open(fp, encoding="utf-8") as f:
+                                res["shex"]["file_equals_string"] = (f.read() == text)
                         else:
                             try:
                                 res["shacl"] = {"kind": "ok", "digest": shacl_digest(text)}
@@ -286,6 +304,10 @@ def execute(scen, scratch):
                 if (a["kind"], a.get("exc")) != (b["kind"], b.get("exc")):
                     violations.append(violation("shexc_bytes", "exception_parity", [ci, case["channel"], a.get("exc"), b.get("exc"), scen["hashseeds"][k]]))
                 continue
+            if b.get("file_equals_string") is False or a.get("file_equals_string") is False:
+                violations.append(violation("file_equals_string", "differs_in_some_interpreter",
+                                            {"case": ci, "channel": case["channel"], "hashseed": scen["hashseeds"][k],
+                                             "optimised": bool(scen.get("optimize", [False] * 99)[k])}))
             if a["text"] == b["text"]:
                 continue
             sim.probes["shexc_bytes_differ"] += 1
